@@ -55,7 +55,7 @@ Load ==
           LET e == EncStructV(S, Value, C.var) IN
           /\ exp' = e
           /\ phase' = "r" /\ l' = 1 /\ wpos' = 0 /\ rpos' = 0 /\ msglen' = Len(e)
-          /\ fails' = (IF ExpandRuns(C.input) = e THEN {} ELSE {"harness_input_mismatch"})
+          /\ fails' = (IF Bytes(C.input) = e THEN {} ELSE {"harness_input_mismatch"})
                       \cup (IF WellTyped(S, Value) THEN {} ELSE {"harness_value_not_well_typed"})
           /\ UNCHANGED ci
 
@@ -72,7 +72,7 @@ StepW ==
           /\ wpos' = wpos + e.n
           /\ fails' = fails \cup
                (IF /\ wpos + e.n <= Len(exp)
-                   /\ SubSeq(exp, wpos + 1, wpos + e.n) = ExpandRuns(e.d)
+                   /\ SubSeq(exp, wpos + 1, wpos + e.n) = Bytes(e.d)
                 THEN {} ELSE {"write_diverges_from_wire_format"})
   /\ UNCHANGED <<ci, phase, exp, msglen, rpos>>
 
